@@ -651,3 +651,16 @@ impl ApiProbe {
 /// `Channel` is `!Sync` but the probe is single-threaded; nothing to add here.
 #[allow(dead_code)]
 fn _channel_type(_: &Channel) {}
+
+/// What a channel handle submits for the content header of a body of `len` bytes (the length only:
+/// no body is needed): `IoLoopHandle::send_content_header`, read back from the I/O-thread end.
+pub fn content_header_submitted(channel_id: u16, class_id: u16, len: usize) -> Option<Vec<u8>> {
+    let (slot, mut handle) = ChannelSlot::new(4, channel_id);
+    handle
+        .send_content_header(class_id, len, &AmqpProperties::default())
+        .ok()?;
+    match slot.rx.try_recv() {
+        Ok(IoLoopMessage::Send(buf)) => Some(buf[0..].to_vec()),
+        _ => None,
+    }
+}
